@@ -53,6 +53,11 @@ def run(ctx):
   # announced statistics (count / sizes / padded size) of the sharded declaration agree with what init builds
   from . import C07
   C07.sharded_triple(ctx)
+  # the blocks produced, the statistics slots they use and the roots applied to them line up: block-major running
+  # index of the statistics, per-block contraction / axis rotation of the preconditioned gradient
+  from . import C02
+  C02.statistics(ctx)
+  C02.block_contraction(ctx)
 
 
 # ------------------------------------------------------------------ S1
